@@ -1016,7 +1016,11 @@ func (x *Exec) entryObjFact(st *State, o *Term) {
 		for holder.Args[0].Op == "select" {
 			holder = holder.Args[0]
 		}
-		if lo, _ := x.b.Bounds(holder.Args[1]); lo != nil && lo.Sign() >= 0 {
+		root := holder.Args[1]
+		for root.Op == "app" && (strings.HasPrefix(root.Name, "sub_") || strings.HasPrefix(root.Name, "elem_")) && len(root.Args) > 0 {
+			root = root.Args[0] // an embedded struct or array of an entry object is an entry object
+		}
+		if lo, _ := x.b.Bounds(root); lo != nil && lo.Sign() >= 0 {
 			st.assumeBound(x, o, new(big.Int), nil)
 		}
 		return
